@@ -32,3 +32,4 @@ EQUIVALENT = [
 ]
 BREAKING.append(('delay from float times, truncated afterwards', 'phylib/stats/ccg.py', "        spike_diff = _diff_shifted(spike_samples, shift)", "        spike_diff = (_diff_shifted(spike_times, shift) * sample_rate).astype(np.int64)", ['C15.U1']))
 EQUIVALENT.append(('samples via floor then cast', 'phylib/stats/ccg.py', "    spike_samples = (spike_times * sample_rate).astype(np.int64)", "    spike_samples = np.floor(spike_times * sample_rate).astype(np.int64)"))
+BREAKING.append(('loop bounded by a maximal shift', 'phylib/stats/ccg.py', "    while mask[:-shift].any():", "    while shift <= (winsize_bins // 2 + 1) * binsize and mask[:-shift].any():", ['C15.K1']))
